@@ -105,7 +105,16 @@ pub struct Prog {
 }
 
 fn run(e: &'static Engine, p: &'static Prog, poll_ns: u64) {
+    run_off(e, p, poll_ns, 0)
+}
+
+/// `off`: trivial coroutines run before the window so that the run queues sit at a block boundary
+fn run_off(e: &'static Engine, p: &'static Prog, poll_ns: u64, off: usize) {
     rt_init_opts(p.workers, 2, 0x4000, poll_ns);
+    for _ in 0..off {
+        let h = go!(|| 1);
+        h.join().unwrap();
+    }
     e.begin();
     let mut hs = vec![];
     for (i, (site, acts)) in p.cos.iter().enumerate() {
@@ -230,6 +239,26 @@ pub fn build(quick: bool) -> Vec<Scenario> {
         let d = if quick { 2 } else if three { 2 } else { 3 };
         let s = Scenario::new("C01", "spawn_join", p.name, Arc::new(move |e| run(e, p, 3_600_000_000_000))).bound(d);
         v.push(if quick { s.deepen(4, 2500) } else if d == 3 { s.shards(4).deepen(4, 40_000) } else { s.deepen(3, 150_000) });
+    }
+    // run queues positioned at their block boundaries (global mpsc: 64 slots, local spmc: 32 slots; the warm-up
+    // coroutine of rt_init is the first entry)
+    for p in PROGS.iter().filter(|p| ["two.yield.w2", "three.yield.w2", "two.yield2_ret.w2.poll"].contains(&p.name)) {
+        for off in if quick { vec![30usize, 62] } else { vec![30usize, 62, 125] } {
+            let s = Scenario::new("C01", "spawn_join_boundary", format!("{}.off{}", p.name, off), Arc::new(move |e| run_off(e, p, 3_600_000_000_000, off))).bound(if quick { 1 } else { 2 });
+            v.push(if quick { s.deepen(2, 4000) } else { s.deepen(3, 60_000) });
+        }
+    }
+    for (name, off) in [("two.yield.w2", 62usize), ("three.yield.w2", 61)] {
+        // one worker: every spawn goes through the same global queue
+        if let Some(p) = PROGS.iter().find(|p| p.name == name) {
+            static ONE: std::sync::OnceLock<Vec<Prog>> = std::sync::OnceLock::new();
+            let progs = ONE.get_or_init(|| {
+                PROGS.iter().filter(|p| ["two.yield.w2", "three.yield.w2"].contains(&p.name)).map(|p| Prog { name: p.name, workers: 1, cos: p.cos, main: p.main, wait: p.wait }).collect()
+            });
+            let p1: &'static Prog = progs.iter().find(|q| q.name == p.name).unwrap();
+            let s = Scenario::new("C01", "spawn_join_boundary", format!("{}.one_worker.off{}", name.replace(".w2", ""), off), Arc::new(move |e| run_off(e, p1, 3_600_000_000_000, off))).bound(if quick { 1 } else { 2 });
+            v.push(if quick { s.deepen(3, 4000) } else { s.deepen(4, 60_000) });
+        }
     }
     // the default 10 ms polling must not break anything (a lost wake-up is masked there by design)
     for p in PROGS.iter().filter(|p| ["two.yield.w2", "one.park.w1", "one.sleep.w1"].contains(&p.name)) {
